@@ -146,6 +146,54 @@ def gen_policy_change_case(rng):
     return s.text(), {"history_rels": ["hist.log"]}
 
 
+def stuck_cleanup_phase(rep, exe_impl, exe_model):
+    """implementation only (directory modes are not part of the model's file system): the source has disappeared /
+    become unreadable / become a directory AND the directories created for its version cannot be removed again (their
+    parent is not writable): the item is still dropped and reported as deleted / forbidden - the clean-up is nobody's
+    business"""
+    rng = random.Random(rep.seed + 7)
+    cases = []
+    for i in range(9 if rep.tier == "quick" else 60):
+        s = wc.Script()
+        wc.setup_world(s, wc.base_cfg(deb=0))
+        s.start()
+        s.exec(3, wc.X + "/vim")
+        E, B = wc.WATCH + "/inc/e%d.txt" % i, wc.WATCH + "/n"
+        SE = wc.R + "/k/store/inc/e%d.txt" % i
+        s.put(E, "here today")
+        s.write(3, E)
+        s.put(B, "bystander")
+        s.write(3, B)
+        how = ["deleted", "directory", "unreadable"][i % 3]
+        if how == "deleted":
+            s.rm(E)
+        elif how == "directory":
+            s.rm(E)
+            s.mkdirp(E)
+        else:
+            s.chmod(E, False)
+        s.mkdirp(SE)
+        s.add("chmodx %s 555" % wc.hexs(wc.R + "/k/store/inc"))
+        s.tick(1)
+        s.dump()
+        s.timeout()
+        s.dump()
+        s.add("chmodx %s 755" % wc.hexs(wc.R + "/k/store/inc"))
+        if how == "unreadable":
+            s.chmod(E, True)
+        cases.append(("sc%d" % i, s.text(), {"journal_counts": False}))
+    f, v = wk.run_cases(rep, exe_impl, None, cases, ["no_error", "bursts", "store_immutable", "queue_form"], what="clean-up that cannot finish")
+    return f, v, len(cases)
+
+
+def extra_phases(rep, exe_impl, exe_model):
+    f, v, n = shrink_phase(rep, exe_impl, exe_model)
+    if not f:
+        f2, v2, n2 = stuck_cleanup_phase(rep, exe_impl, exe_model)
+        f, v, n = f or f2, v + v2, n + n2
+    return f, v, n
+
+
 def main(rep):
     rng = random.Random(rep.seed)
     n = 200 if rep.tier == "quick" else 4000
@@ -161,11 +209,11 @@ def main(rep):
     for i in range(max(20, n // 10)):
         t, m = gen_policy_change_case(rng)
         cases.append(("p%d" % i, t, m))
-    wk.standard_main(rep, cases=cases, monitors=MON, extra=shrink_phase,
+    wk.standard_main(rep, cases=cases, monitors=MON, extra=extra_phases,
                      rule=("three files per history with sizes from {0,1,2,4095,4096,4097,12345,70000}, sendfile chunk limits {none,1000,4095,4096,4097,65536}, "
                            "and between the write and the copy: nothing, rewritten, grown, deleted, replaced by a directory, made unreadable (real EACCES: the "
                            "driver runs unprivileged); monitors: every new version equals its source byte for byte (length + hash), an abandoned copy leaves no "
-                           "file and no empty directory, journal labels stored/deleted/forbidden match what appeared; a source truncated by another process at a sendfile boundary (implementation only): the version is a prefix of what the source held; plus append histories of a history path (slices of 0-60 bytes, several versions inside one "
+                           "file and no empty directory, journal labels stored/deleted/forbidden match what appeared; a source truncated by another process at a sendfile boundary (implementation only): the version is a prefix of what the source held; a vanished / unreadable / non-regular source whose freshly created version directories cannot be removed again (implementation only): still dropped and reported, no error; plus append histories of a history path (slices of 0-60 bytes, several versions inside one "
                            "timestamp, restarts): the versions in order concatenate to the file up to the remembered position; plus a path whose policy changes between history and ordinary "
                            "by a reload and which is then rewritten as a whole; plus every single failing call of three passes (a reported failure of the copy must not leave the file it was writing)"))
 
